@@ -276,7 +276,7 @@ def main(tier):
     k1 = configs_k1.items_for_own_fixtures(limit_values=2 if tier == "quick" else None)
     for it in k1:
         it["mode"] = "isolated"
-    pipe = common.pipe_items(tier, KQ, KT, k1=True)
+    pipe = common.pipe_items(tier, KQ, KT, one_line=True, k1=True)
     small = [s for s in corpus.small_slice(max_lines=25) if s.startswith(("fix/", "cls/"))]
     rej = reject_items(small[:12] if tier == "quick" else small)
     m1 = explore.run(iso + k1, execute, horizon=120.0, label=PROP + "a", chunk=4)
